@@ -20,13 +20,13 @@ def _e(fn, kind, shape, lemmas, why, max=1):
 
 
 WC = "crate::columns::wrap_columns"
-_e(WC, "assert:Overflow:Mul", "crate::core::display_width($5) ; ($2 Sub 1)", ["A-mem"],
+_e(WC, "assert:Overflow:Mul", "{$2 k} ; {crate::core::display_width($5)}", ["A-mem"],
    "display_width(middle_gap)*(columns-1) overflowing usize means a row holding columns-1 copies of the gap "
    "could not exist in memory (gap >= 1 byte per column unit); excluded by the memory clause")
-_e(WC, "assert:Overflow:Mul", "v:usize ; v:usize", ["C20.R3"],
+_e(WC, "assert:Overflow:Mul", "{(Vec::len(crate::wrap::wrap(_,_)) Div $2) From::from((0 Lt (_ Rem _)))} ; {Iterator::next!(_)?Some.0}", ["C20.R3"],
    "column_no * lines_per_column: column_no < columns; if lines_per_column >= 2 then columns < L <= isize::MAX and "
    "columns*lines_per_column < L + columns < 2^64; if it is <= 1 the product is < columns")
-_e(WC, "assert:Overflow:Add", "v:usize ; (v:usize Mul v:usize)", ["C20.R3"],
+_e(WC, "assert:Overflow:Add", "{(Vec::len(crate::wrap::wrap(_,_)) Div $2) From::from((0 Lt (_ Rem _))) Iterator::next!(_)?Some.0} ; {Iterator::next!(_)?Some.0}", ["C20.R3"],
    "line_no + column_no*lines_per_column < lines_per_column*(columns) + lines_per_column <= L + 2*columns")
 
 BW = "crate::core::break_words"
@@ -38,26 +38,26 @@ _e("crate::core::ch_width", "extern:UnicodeWidthChar::width", "UnicodeWidthChar:
    "table lookup in unicode-width; total")
 
 FI = "crate::fill::fill_inplace"
-_e(FI, "call:Iterator::sum", "Iterator::map([]::iter(v:[]),closure{})", ["C11.R1", "C06.R2"],
+_e(FI, "call:Iterator::sum", "Iterator::map([]::iter(_.0),closure{})", ["C11.R1", "C06.R2"],
    "sum over the words of one line of len(word)+len(whitespace): words are contiguous pieces of `line`, so the "
    "sum is <= line.len() <= isize::MAX")
-_e(FI, "assert:Overflow:Add", "v:usize ; v:usize", ["C17.R1", "C11.R1", "C06.R2"],
+_e(FI, "assert:Overflow:Add", "{Iterator::sum(Iterator::map([]::iter(_),closure{}))} ; {phi:usize}", ["C17.R1", "C11.R1", "C06.R2"],
    "line_offset + line_len <= offset + line.len() <= text.len()")
-_e(FI, "assert:Overflow:Sub", "v:usize ; 1", ["C17.R1", "C06.R2"],
+_e(FI, "assert:Overflow:Sub", "{Iterator::sum(Iterator::map([]::iter(_),closure{})) phi:usize} ; {k}", ["C17.R1", "C06.R2"],
    "line_offset >= 1 after adding the length of a non-empty line of words (first-fit lines are non-empty and "
    "each word has len(word)+len(whitespace) >= 1)")
-_e(FI, "assert:Overflow:Add", "v:usize ; (str::len(v:str) Add 1)", ["C17.R1"],
+_e(FI, "assert:Overflow:Add", "{phi:usize} ; {str::len(_?Some.0) k}", ["C17.R1"],
    "offset + line.len() + 1 <= text.len() + 1 (lines are disjoint pieces of text separated by one byte)")
-_e(FI, "call:IndexMut::index_mut", "&mut:Vec,v:usize", ["C17.R1", "C17.R2"],
+_e(FI, "call:IndexMut::index_mut", "&mut:Vec,Iterator::next!(_)?Some.0", ["C17.R1", "C17.R2"],
    "recorded indices are offsets of bytes inside `text` (< text.len() = bytes.len())")
-_e(FI, "call:Result::unwrap", "String::from_utf8(v:Vec)", ["C17.R2"],
+_e(FI, "call:Result::unwrap", "String::from_utf8(phi:Vec)", ["C17.R2"],
    "only ASCII b'\\n' is stored, at positions holding ASCII b' ': the buffer stays valid UTF-8")
 
 UF = "crate::refill::unfill"
-_e(UF, "call:Index::index", "v:str,RangeFrom::RangeFrom{start:str::len(v:Options.initial_indent)}", ["C15.R1"],
+_e(UF, "call:Index::index", "_.0.1.0,RangeFrom{start:{str::len(phi:Options.initial_indent)}}", ["C15.R1"],
    "initial_indent is a prefix of the first line of text.lines(); the first item of NonEmptyLines is that line "
    "or a longer/equal line (two-iterator agreement, #466): U-clause of C15, recorded here")
-_e(UF, "call:Index::index", "v:str,RangeFrom::RangeFrom{start:str::len(v:Options.subsequent_indent)}", ["C15.R1", "C15.R5"],
+_e(UF, "call:Index::index", "_.0.1.0,RangeFrom{start:{str::len(phi:Options.subsequent_indent)}}", ["C15.R1", "C15.R5"],
    "subsequent_indent is a common prefix of lines 2.. of text.lines(); relies on line-iterator agreement")
 
 _e("crate::word_separators::WordSeparator::find_words", "indirect",
@@ -79,44 +79,44 @@ _e("crate::termwidth::termwidth", "extern:terminal_size::terminal_size", "termin
 
 UB = "crate::word_separators::find_words_unicode_break_properties"
 _e(UB, "extern:unicode_linebreak::linebreaks", "unicode_linebreak::linebreaks", ["A-lb"], "total iterator constructor")
-_e(UB + "::{closure#1}", "call:Index::index", "^String,RangeTo::RangeTo{end:v:usize}", ["A-lb"],
+_e(UB + "::{closure#1}", "call:Index::index", "^String,RangeTo{end:{$2.0}}", ["A-lb"],
    "idx is a break opportunity of `stripped` reported by linebreaks(&stripped): a char boundary in (0, len]")
-_e(UB + "::{closure#2}", "call:Index::index", "^str,Range::Range{start:^usize,end:v:usize}", ["C11.R2", "C11.R7"],
+_e(UB + "::{closure#2}", "call:Index::index", "^str,Range{start:{^usize},end:{_?Some.0.0}}", ["C11.R2", "C11.R7"],
    "orig_idx is item .0 of line.char_indices() yielded through the index map (closure#0); start is 0 or an earlier "
    "orig_idx of the same increasing iterator")
-_e(UB + "::{closure#2}", "call:Index::index", "^str,RangeFrom::RangeFrom{start:^usize}", ["C11.R2"],
+_e(UB + "::{closure#2}", "call:Index::index", "^str,RangeFrom{start:{^usize}}", ["C11.R2"],
    "start is 0, an orig_idx of line.char_indices(), or line.len()")
 
 SW = "crate::word_splitters::split_words::{closure#0}::{closure#0}"
-_e(SW, "call:Index::index", "^Word.word,RangeTo::RangeTo{end:v:usize}", ["C12.R4", "A-custom"],
+_e(SW, "call:Index::index", "^Word.word,RangeTo{end:{Iterator::next!(_)?Some.0}}", ["C12.R4", "A-custom"],
    "idx comes from split_points(word): hyphen splitter yields match offset + 1 of ASCII '-' (S4); custom "
    "splitters/dictionaries are assumed to return char boundaries (A-custom)")
-_e(SW, "call:Index::index", "^Word.word,Range::Range{start:^usize,end:v:usize}", ["C12.R1", "C12.R4", "A-custom"],
+_e(SW, "call:Index::index", "^Word.word,Range{start:{^usize},end:{Iterator::next!(_)?Some.0}}", ["C12.R1", "C12.R4", "A-custom"],
    "prev is 0 or an earlier split point; split points are increasing boundaries", max=2)
-_e(SW, "call:Index::index", "^Word.word,RangeFrom::RangeFrom{start:^usize}", ["C12.R1", "C12.R4", "A-custom"],
+_e(SW, "call:Index::index", "^Word.word,RangeFrom{start:{^usize}}", ["C12.R1", "C12.R4", "A-custom"],
    "prev is 0 or a split point <= len under the guard prev < len || prev == 0", max=2)
 
 WS = "crate::wrap::wrap_single_line_slow_path"
-_e(WS, "call:Iterator::sum", "Iterator::map([]::iter(v:[]),closure{})", ["C11.R1", "C12.R1", "C06.R2"],
+_e(WS, "call:Iterator::sum", "Iterator::map([]::iter(_.0),closure{})", ["C11.R1", "C12.R1", "C06.R2"],
    "sum of len(word)+len(whitespace) over the words of one output line: contiguous pieces of `line`")
-_e(WS, "assert:Overflow:Add", "v:usize ; v:usize", ["C01.R1"],
+_e(WS, "assert:Overflow:Add", "{Iterator::sum(Iterator::map([]::iter(_),closure{})) str::len(_.0.whitespace)} ; {phi:usize}", ["C01.R1"],
    "idx + len <= line.len(): idx is the byte offset of the first word of this output line")
-_e(WS, "call:Index::index", "$1,Range::Range{start:v:usize,end:(v:usize Add v:usize)}", ["C01.R1", "C11.R1", "C12.R1"],
+_e(WS, "call:Index::index", "$1,Range{start:{phi:usize},end:{Iterator::sum(Iterator::map([]::iter(_),closure{})) phi:usize str::len(_.0.whitespace)}}", ["C01.R1", "C11.R1", "C12.R1"],
    "line[idx..idx+len]: both are sums of lengths of consecutive contiguous words, hence char boundaries in order")
-_e(WS, "assert:Overflow:Add", "v:usize ; str::len(v:Word.whitespace)", ["C01.R1"],
+_e(WS, "assert:Overflow:Add", "{Iterator::sum(Iterator::map([]::iter(_),closure{})) str::len(_.0.whitespace)} ; {str::len(_.0.whitespace)}", ["C01.R1"],
    "len + last.whitespace.len() equals the sum again (MEMBER-OF-SUM), <= line.len()")
-_e(WS, "assert:Overflow:Add", "v:usize ; (v:usize Add str::len(v:Word.whitespace))", ["C01.R1"],
+_e(WS, "assert:Overflow:Add", "{Iterator::sum(Iterator::map([]::iter(_),closure{}))} ; {phi:usize}", ["C01.R1"],
    "idx advances by the byte length of the words consumed so far, <= line.len()")
 
 _e("crate::wrap_algorithms::WrapAlgorithm::wrap", "call:Result::unwrap",
-   "crate::wrap_algorithms::optimal_fit::wrap_optimal_fit($2,v:Vec,v:Penalties)", ["C04.R3"],
+   "crate::wrap_algorithms::optimal_fit::wrap_optimal_fit($2,Iterator::collect(Iterator::map(_,_)),_?OptimalFit.0)", ["C04.R3"],
    "OverflowError is unreachable for usize-valued widths and penalties (MAG)")
 
 LN = "crate::wrap_algorithms::optimal_fit::LineNumbers::get"
-_e(LN, "assert:Overflow:Add", "$2 ; 1", ["A-smawk", "C03.R2"], "i <= fragments.len() <= isize::MAX at every call site (the closure asks for L(i): C03.R2)")
-_e(LN, "assert:BoundsCheck", "v:usize ; []::len($3)", ["A-smawk", "C03.R2"],
+_e(LN, "assert:Overflow:Add", "{$2} ; {k}", ["A-smawk", "C03.R2"], "i <= fragments.len() <= isize::MAX at every call site (the closure asks for L(i): C03.R2)")
+_e(LN, "assert:BoundsCheck", "{Vec::len(RefCell::borrow(_.line_numbers))} ; {[]::len($3)}", ["A-smawk", "C03.R2"],
    "pos = cache length <= i and minima.len() > i (smawk's contract for the closure; minima complete afterwards)")
-_e(LN, "assert:Overflow:Add", "1 ; crate::wrap_algorithms::optimal_fit::LineNumbers::get($1,$3[v:usize].0,$3)",
+_e(LN, "assert:Overflow:Add", "{crate::wrap_algorithms::optimal_fit::LineNumbers::get($1,_[_].0,$3)} ; {k}",
    ["A-smawk"], "line numbers are at most the number of fragments")
 _e(LN, "call:Index::index", "RefCell::borrow($1.line_numbers),$2", ["LEN-GROWS"],
    "the preceding loop exits only when len >= i + 1")
@@ -126,15 +126,15 @@ _e(LN, "recursion", "crate::wrap_algorithms::optimal_fit::LineNumbers::get", ["A
 OF = "crate::wrap_algorithms::optimal_fit::wrap_optimal_fit"
 _e(OF, "extern:smawk::online_column_minima", "smawk::online_column_minima", ["A-smawk"],
    "size = widths.len() >= 1; behaviour on non-finite matrices is a U-clause of C04")
-_e(OF, "call:Index::index", "v:Vec,v:usize", ["A-smawk", "C06.R3"],
+_e(OF, "call:Index::index", "smawk::online_column_minima(0.0,Vec::len(phi:Vec),closure{crate::wrap_algorithms::optimal_fit::LineNumbers::new(_),$2,Option::unwrap_or(_,_),phi:Vec,$1,$3}),phi:usize", ["A-smawk", "C06.R3"],
    "pos starts at fragments.len() = minima.len() - 1 and only decreases")
-_e(OF, "call:Index::index", "$1,Range::Range{start:v:usize,end:v:usize}", ["A-smawk", "C06.R3"],
+_e(OF, "call:Index::index", "$1,Range{start:{Index::index(smawk::online_column_minima(_,_,_),phi:usize).0},end:{phi:usize}}", ["A-smawk", "C06.R3"],
    "prev = minima[pos].0 < pos <= fragments.len()")
 _e(OF, "loop", "non-iterator", ["A-smawk", "C06.R3"], "pos strictly decreases to 0 (DECREASING)")
 OC = OF + "::{closure#0}"
-_e(OC, "assert:BoundsCheck", "$3 ; []::len($2)", ["A-smawk"], "smawk calls m(minima, i, j) with minima.len() > i")
-_e(OC, "assert:BoundsCheck", "($4 Sub 1) ; []::len(^[])", ["A-smawk"], "i < j < size = fragments.len() + 1", max=3)
-_e(OC, "assert:Overflow:Add", "$3 ; 1", ["A-smawk"], "i < j <= fragments.len()")
-_e(OC, "assert:Overflow:Sub", "$4 ; 1", ["A-smawk"], "j > i >= 0", max=3)
+_e(OC, "assert:BoundsCheck", "{$3} ; {[]::len($2)}", ["A-smawk"], "smawk calls m(minima, i, j) with minima.len() > i")
+_e(OC, "assert:BoundsCheck", "{$4 k} ; {[]::len(^[])}", ["A-smawk"], "i < j < size = fragments.len() + 1", max=3)
+_e(OC, "assert:Overflow:Add", "{$3} ; {k}", ["A-smawk"], "i < j <= fragments.len()")
+_e(OC, "assert:Overflow:Sub", "{$4} ; {k}", ["A-smawk"], "j > i >= 0", max=3)
 _e(OC, "call:Index::index", "^Vec,$3", ["A-smawk", "C03.R1"], "i < widths.len() = size")
 _e(OC, "call:Index::index", "^Vec,$4", ["A-smawk", "C03.R1"], "j < widths.len() = size")
